@@ -95,12 +95,22 @@ def search(ctx):
     fails = []
     seen = set()
     allset = settings()
-    npos = ctx.n(12, 120)
+    npos = ctx.n(14, 126)
     for no, ch, s in allset:
         ops = ops_exact(s)
         for k in range(npos):
-            kind = k % 6
-            if kind <= 2:
+            kind = k % 7
+            spell = None
+            if kind == 6:
+                # lattice points, spelled with integers (lists, tuples, integer arrays, booleans) as well as floats
+                ipos = [rng.randint(-2, 2) for _ in range(3)] if rng.random() < 0.6 else [rng.randint(0, 1) for _ in range(3)]
+                pos = [F(x) for x in ipos]
+                exp = orbit_size_exact(ops, pos)
+                fpos = list(ipos)
+                spell = rng.choice(['int list', 'int tuple', 'int array', 'float array', 'bool list'] if all(x in (0, 1) for x in ipos) else ['int list', 'int tuple', 'int array', 'float array'])
+                label = 'lattice point:' + spell
+                kind = 0
+            elif kind <= 2:
                 pos = [rng.choice(GRID) for _ in range(3)]
                 exp = orbit_size_exact(ops, pos)
                 shift = [rng.randint(-2, 2) if kind == 2 else 0 for _ in range(3)]
@@ -117,10 +127,14 @@ def search(ctx):
                 label = {3: 'x,x,z', 4: 'x,2x,z', 5: 'x,-x,z'}[kind]
             got = None
             why = None
+            arg = {None: lambda: np.array(fpos), 'int list': lambda: [int(x) for x in fpos], 'int tuple': lambda: tuple(int(x) for x in fpos), 'int array': lambda: np.array(fpos, dtype=int),
+                   'float array': lambda: np.array(fpos, dtype=float), 'bool list': lambda: [bool(x) for x in fpos]}[spell]
+            if spell is None and k % 5 == 3:
+                arg = rng.choice([lambda: list(fpos), lambda: tuple(fpos)])
             try:
-                got = structure.multiplicity(np.array(fpos), sgno=no, cell_choice=ch)
+                got = structure.multiplicity(arg(), sgno=no, cell_choice=ch)
                 if k % 4 == 0:
-                    g2 = structure.multiplicity(np.array(fpos), sgname=s.name)
+                    g2 = structure.multiplicity(arg(), sgname=s.name)
                     if g2 != got:
                         why = 'by name gives %r, by number %r' % (g2, got)
             except Exception as e:
@@ -134,7 +148,7 @@ def search(ctx):
             if why and (no, ch) not in seen:
                 seen.add((no, ch))
                 fails.append({'sgno': no, 'cell_choice': ch, 'name': s.name, 'position': fpos, 'expected': exp, 'got': got, 'what': why,
-                              'replay': 'structure.multiplicity(%r, sgno=%d, cell_choice=%r): %s' % (fpos, no, ch, why)})
+                              'replay': 'structure.multiplicity(%r, sgno=%d, cell_choice=%r): %s' % (arg(), no, ch, why)})
         # state must not leak between calls: both settings of an R group in sequence
     for no in (146, 148, 155, 160, 161, 166, 167):
         try:
